@@ -845,13 +845,21 @@ func (w *world) doWait(ctx context.Context, ts *taskState, op sim.Op, i int, seq
 		switch o.Err {
 		case "ErrNotExist":
 			if t1.Before(exp.Add(-2 * time.Millisecond)) {
-				e.Violate("C06", "live_record_dropped", "[%s backend] WaitForVersionChange(%q) of %s returned ErrNotExist %v before the record's expiration: a record whose expiration lies in the future was dropped", w.be.Kind, key, ts.name, exp.Sub(t1))
+				if w.prop() == "C07" {
+					e.Violate("C07", "invented_absence", "[%s backend] WaitForVersionChange(%q) of %s returned ErrNotExist %v before the record's expiration, while the key was present", w.be.Kind, key, ts.name, exp.Sub(t1))
+				} else {
+					e.Violate("C06", "live_record_dropped", "[%s backend] WaitForVersionChange(%q) of %s returned ErrNotExist %v before the record's expiration: a record whose expiration lies in the future was dropped", w.be.Kind, key, ts.name, exp.Sub(t1))
+				}
 			} else {
 				e.Probe("waiter_released_by_expiry")
 			}
 		case "ctx":
 			if ws.cancelAt.After(exp.Add(slack)) {
-				e.Violate("C06", "expired_not_as_deleted", "[%s backend] WaitForVersionChange(%q) of %s (one of several waiters on the key) was still blocked %v after the record expired and ended only with its context: an expired record must end the wait with ErrNotExist", w.be.Kind, key, ts.name, ws.cancelAt.Sub(exp))
+				if w.prop() == "C07" {
+					e.Violate("C07", "not_prompt_after_expiry", "[%s backend] WaitForVersionChange(%q) of %s was still blocked %v after the record had expired (the key is absent from then on) and ended only with its context: it must return ErrNotExist promptly", w.be.Kind, key, ts.name, ws.cancelAt.Sub(exp))
+				} else {
+					e.Violate("C06", "expired_not_as_deleted", "[%s backend] WaitForVersionChange(%q) of %s (one of several waiters on the key) was still blocked %v after the record expired and ended only with its context: an expired record must end the wait with ErrNotExist", w.be.Kind, key, ts.name, ws.cancelAt.Sub(exp))
+				}
 			} else {
 				e.Probe("waiter_cancelled_before_expiry")
 			}
